@@ -6,6 +6,7 @@ import json, glob, os, sys
 rnd, out = int(sys.argv[1]), sys.argv[2]
 V = os.path.dirname(os.path.dirname(os.path.abspath(__file__)))
 FOCUS = {
+ 6: "This round, aim at the ARITHMETIC CORE and at COOPERATING SITES. (a) Slips that keep the shape of the code - the same loops, branches, calls and types - but compute a wrong number for one class of inputs: a wrong constant inside a closed-form expression, a shift/popcount/mask trick that is off for one bit pattern, a carry or correction term dropped between two stages, a table entry or a table-building formula that is wrong for one index, an accumulator initialised or advanced slightly wrongly, `<` vs `<=` where only the boundary value differs. (b) Two or three edits in DIFFERENT functions or files (writer and reader, builder and query, helper and caller, constant and its user) that agree with each other in the common case and disagree for one boundary case. (c) State or configuration dependence: a result that depends on an earlier call, on the build tag, on the word size, on the order of two calls.",
  5: "This round, look especially at what the property's functions DEPEND ON rather than at their main loop: helper functions, package tables and the code that initialises them, constants, type definitions, constructor defaults, the less-travelled branches (error paths, empty/one-element inputs, the last iteration, equal keys, maximum height/width), and pairs of edits in two different places that are each harmless alone.",
 }
 for l in open(V + "/properties.jsonl"):
